@@ -21,6 +21,9 @@ CHECKS = {
  'C04': ('exploration', 'reference-model monitor over enumerated and sampled executions: an executable model of the spec value/default-pair rules (M0/M1, D0-D2, U0-U2) decides bottom-ness, probe acceptance, concreteness/ambiguity and the resolved default of each evaluated expression',
    'Exhaustive depth-2 width-2 expressions over 6 leaves + all A & B over the depth-1 width<=3 expressions over {1,2,int} in quick (174k); all 11 leaves, width 3 and A & B & C in thorough; 10k/200k PRNG depth-3 expressions, half over small per-expression leaf pools (duplicate terms).',
    'Three recorded findings are matched by model-defined expression classes; within them only default-related disagreement is tolerated (the static class must agree with a variant model exactly), value-set disagreement always alarms.', 'DESIGN.md §4 C04'),
+ 'C05': ('exploration', 'reference-model monitor over enumerated and sampled executions: `schema & data` validated by the evaluator and by an independent membership checker (closing events = definition references and close() calls, embeddings widen, required/optional/pattern constraints); result field tree, Allows() and the same schema reached through a regular field compared as well',
+   'Exhaustive single-conjunct schemas without nesting x all flat data (18k pairs quick, 389k thorough); 250k/4M PRNG cases of 1-3 conjuncts to depth 3 with schema-guided data; 150k/2M deep-chain cases (nested literal/close()/definition chains under a body with a flat embedding).',
+   'Cases in which an embedded struct has struct-valued fields are compared and counted but not alarmed (the spec does not determine nested closedness under embeddings). Four recorded findings: a disagreement is attributed to one only if the evaluator agrees exactly with the corresponding model variant; their witnesses are re-run on every check.', 'DESIGN.md §4 C05'),
  'C03': ('exploration', 'reference-model monitor over enumerated and sampled executions (set model of constraints vs evaluator, E and E&atom for every atom)',
    'Exhaustive for conjunctions of <=2 constraints over the full alphabet x every atom (|E|=3 numeric sub-alphabet in thorough), PRNG-sampled beyond, plus large-magnitude/high-precision bounds probed at +-1 ulp and predeclared ranges probed around their limits; a finite set model decides each observed evaluation. Universal only inside the enumerated sub-space.',
    'Trusts the 150-line set model (written from the statement/spec), Go regexp for =~, and cue.Value accessors used to read results back.', 'DESIGN.md §4 C03'),
